@@ -249,6 +249,9 @@ func runC09(t *simrt.Tape, o Opts) Outcome {
 		h.newProc()
 		if t.Choose(2, "faulty") == 1 {
 			enableRandomFaults(w, t, []string{"ms.err", "ms.errafter", "ms.falsedup", "ms.race", "kms.err", "aead.err", "alloc.err", "ctx.cancel"}, h.base.Expire, h.base.Revoke)
+			// the application's cipher panics in the middle of a decrypt and the caller recovers: the
+			// references the unwinding call held (intermediate key, page protection) are released all the same
+			w.Faults.Kinds["aead.panic"] = t.Choose(2, "aead.panic") == 1
 		}
 		h.hooks.afterOp = func(k int) { aud.audit("after " + opNames[k]) }
 		n := 5 + t.Choose(scale(o, 50, 150), "nops")
